@@ -30,6 +30,12 @@ def build_init_and_step_fn(
         init_fn, step_fn: Functions that initialize the state and parameters, and perform
             a single integration step, respectively.
     """
+    if solver == "fwd_euler":
+        # Forward Euler does not solve a linear system and always uses the `jaxley`
+        # format of the conductances (the `voltage_solver` only affects `bwd_euler`
+        # and `crank_nicolson`).
+        voltage_solver = "jaxley.stone"
+
     # Initialize the external inputs and their indices.
     external_inds = {
         key: module._index_within_synapse_type(key, inds)
